@@ -368,11 +368,16 @@ def work_class(args):
     # undeclared AVPs that share a *code* with a declared attribute but not its vendor
     collide = []
     declared = {(d.avp_code, d.vendor_id) for d in defs_of(cls)}
+    n_base = n_vend = 0
     for d in defs:
-        if d.type_class is None:
-            for ov in ((4242,) if d.vendor_id == 0 else (0, 4242)):
-                if (d.avp_code, ov) not in declared and len(collide) < 3:
-                    collide.append(rc.enc_avp(d.avp_code, b"not-mine", 0, ov))
+        if d.vendor_id == 0 and n_base < 2 and (d.avp_code, 4242) not in declared:
+            collide.append(rc.enc_avp(d.avp_code, b"not-mine", 0, 4242))       # base attribute's code under a foreign vendor
+            n_base += 1
+        if d.vendor_id != 0 and n_vend < 2:
+            for ov in (0, 4242):
+                if (d.avp_code, ov) not in declared:
+                    collide.append(rc.enc_avp(d.avp_code, b"not-mine", 0, ov))   # vendor attribute's code without / under another vendor
+            n_vend += 1
     cases = [("none", {}, ())]
     depth1 = 2
     for i, d in enumerate(defs):
@@ -405,7 +410,60 @@ def work_class(args):
     for label, spec, ex in cases:
         n += 1
         check_instance(b, cls, spec, ex, label, out, is_message)
+    if is_message:
+        n += check_mutation_after_encode(b, cls, defs, out)
     return n, out
+
+
+def check_mutation_after_encode(b, cls, defs, out):
+    """An instance is encoded, then changed *without assigning to the message itself* (append to a list attribute,
+    set an attribute of a nested container), then encoded again: the bytes must follow the new state."""
+    n = 0
+    for d in defs:
+        is_list = b.is_list(cls, d.attr_name)
+        tn = b.usable(d)
+        if not is_list and tn != "grouped":
+            continue
+        n += 1
+        case = {"class": cls.__name__, "label": f"encode-mutate-encode:{d.attr_name}"}
+        try:
+            spec = {d.attr_name: b.spec_for(cls, d, 2, 0, 1)}
+            obj = b.build(cls, spec)
+            first = obj.as_bytes()
+            full = dict(default_spec(b, cls))
+            full.update(spec)
+            if is_list:
+                more = b.spec_for(cls, d, 2, 1, 2)
+                extra_elems = more[1]
+                target = getattr(obj, d.attr_name)
+                if tn == "grouped":
+                    target.extend(b.build(d.type_class, s2) for s2 in extra_elems)
+                    full[d.attr_name] = ("cl", list(spec[d.attr_name][1]) + list(extra_elems))
+                else:
+                    target.extend(extra_elems)
+                    full[d.attr_name] = ("l", list(spec[d.attr_name][1]) + list(extra_elems))
+            else:
+                sub = getattr(obj, d.attr_name)
+                subdefs = [x for x in defs_of(d.type_class) if b.usable(x) not in (None, "grouped") and not b.is_list(d.type_class, x.attr_name)]
+                if not subdefs:
+                    continue
+                x = subdefs[-1]
+                newv = VALUES[b.usable(x)][1]
+                setattr(sub, x.attr_name, newv)
+                subspec = dict(spec[d.attr_name][1])
+                subspec[x.attr_name] = ("s", newv)
+                full[d.attr_name] = ("c", subspec)
+            want = b"".join(b.ref_avps(cls, full))
+            second = obj.as_bytes()[20:]
+            if second != want:
+                what = "unchanged-since-the-first-encode" if second == first[20:] else "differs"
+                out.append(Violation(f"encode:{cls.__name__}:state-changed-after-first-encode-not-reflected:{what}",
+                                     f"{case['label']}: second encode {len(second)} bytes, expected {len(want)}", case))
+                return n
+        except Exception as e:
+            out.append(Violation(f"roundtrip:{cls.__name__}:raises:{type(e).__name__}", f"{case['label']}: {e}"[:300], case))
+            return n
+    return n
 
 
 def work_untyped(args):
@@ -425,7 +483,13 @@ def work_untyped(args):
             one = rc.enc_avp(code, rc.enc_value(tn, VALUES[tn][0]), fl, vnd)
             two = rc.enc_avp(code, rc.enc_value(tn, VALUES[tn][1]), fl, vnd)
         for cmd in (8_000_000, 283):
-            for body, count in ((one, 1), (one + two, 2), (one + rc.u32(9_000_001, 1) + two + one, 3)):
+            falsy = None
+            if tn not in ("grouped", "time", "addr"):
+                falsy = rc.enc_avp(code, rc.enc_value(tn, VALUES[tn][2]), fl, vnd)
+            variants = [(one, 1, [0]), (one + two, 2, [0, 1]), (one + rc.u32(9_000_001, 1) + two + one, 3, [0, 1, 0])]
+            if falsy is not None:
+                variants += [(falsy + two, 2, [2, 1]), (falsy + one + two, 3, [2, 0, 1]), (falsy, 1, [2])]
+            for body, count, seq in variants:
                 n += 1
                 case = {"code": code, "vendor": vnd, "count": count, "cmd": cmd}
                 try:
@@ -444,7 +508,6 @@ def work_untyped(args):
                             out.append(Violation("untyped:repeated-avp-not-a-list-in-wire-order", f"{case}: {got!r}"[:300], case))
                             continue
                         vals = got
-                    seq = [0, 1, 0][:count]
                     for gv, which in zip(vals, seq):
                         if tn == "grouped":
                             if which == 0:
